@@ -260,6 +260,11 @@ class FlakyDict(dict):
 def install_flaky(ureg, plan: FaultPlan, col: Collector):
     """(Re-)wrap every memo table of a registry. Idempotent; call at the start of each step,
     because pint replaces some of the tables wholesale (default_system setter, _build_cache)."""
+    if not plan.rates:
+        # no forced misses in this run: leave pint's own objects in place (wrapping replaces the
+        # attribute on the instance, which would e.g. un-share a table that is shared by mistake)
+        return
+
     def wrap(obj, attr, site, mode):
         cur = getattr(obj, attr, None)
         if isinstance(cur, dict) and not isinstance(cur, FlakyDict):
